@@ -138,132 +138,189 @@ func runC04(c *Ctx, r *Rec) {
 
 	// ---- D2 pairing, D3 no blocking under lock
 	for _, name := range sortedKeys(ms) {
-		fd := ms[name]
-		checkLockPairing(c, r, "D2-lock-pairing", info, fd, fd.Body, mkey, qr.mutexF.Name())
-		g := newFG(info, fd.Body)
-		li := computeLock(g, info, mkey)
-		bad := ""
-		locks := 0
-		for _, b := range g.order {
-			for _, n := range b.Nodes {
-				if mutexOp(info, &symEnv{info: info}, n, mkey) == "lock" {
-					locks++
-				}
-				if !li.held[n] {
-					continue
-				}
-				inspectNoLit(n, func(x ast.Node) bool {
-					switch s := x.(type) {
-					case *ast.SendStmt:
-						bad = "channel send at " + c.pos(s.Pos())
-					case *ast.UnaryExpr:
-						if s.Op == token.ARROW {
-							bad = "channel receive at " + c.pos(s.Pos())
-						}
-					case *ast.SelectStmt:
-						bad = "select at " + c.pos(s.Pos())
-					case *ast.CallExpr:
-						if rx, mname, _, ok := methodCall(s); ok {
-							t := info.Types[rx].Type
-							isQ := false
-							if n := derefNamed(t); n != nil && (n.Origin() == qr.q.Origin() || n.Obj().Name() == "QueueLike") {
-								isQ = true
-							}
-							if isQ && (mname == "AddValue" || mname == "RemoveHead") {
-								bad = "blocking queue call " + mname + " at " + c.pos(s.Pos())
-							}
-							if mname == "Wait" {
-								bad = "Wait at " + c.pos(s.Pos())
-							}
-						}
-					}
-					return true
-				})
-			}
-		}
-		if locks > 0 {
-			r.check(bad == "", "D3-no-blocking-under-lock", c.fdName(fd), c.pos(fd.Pos()), "nothing inside the lock region can block on a channel",
-				"a blocking operation lies inside the mutex region ("+bad+"): a full or empty queue then blocks every other caller, including the one that could unblock it")
-		}
+		checkLockPairing(c, r, "D2-lock-pairing", info, ms[name], ms[name].Body, mkey, qr.mutexF.Name())
 	}
+	checkNoBlockingUnderLock(c, r, "D3-no-blocking-under-lock", qr)
 	r.floor("D2-lock-pairing", 7)
 	r.floor("D3-no-blocking-under-lock", 7)
 
 	// ---- D4 publish order
 	if fd := ms["AddValue"]; fd != nil {
 		g := newFG(info, fd.Body)
-		var appendCall, send ast.Node
-		inspectNoLit(fd.Body, func(x ast.Node) bool {
-			if rx, mname, call, ok := methodCall(x); ok && selectorField(info, rx) == qr.listF && (mname == "AppendValue" || mname == "InsertValue") {
-				appendCall = call
-			}
-			if s, ok := x.(*ast.SendStmt); ok && selectorField(info, s.Chan) == qr.chanF {
-				send = s
-			}
-			return true
-		})
+		evs := qr.events(c, info, fd)
+		appends, sends := eventsOf(evs, "append"), eventsOf(evs, "send")
 		construct := c.fdName(fd)
 		switch {
-		case appendCall == nil || send == nil:
-			r.fail("D4-publish-order", construct, c.pos(fd.Pos()), "AddValue does not both append to the value list and send a token on the channel")
-		case !g.nodeDominates(appendCall, send):
+		case len(appends) != 1 || len(sends) != 1:
+			r.skip("D4-publish-order", construct, c.pos(fd.Pos()), fmt.Sprintf("AddValue has %d list appends and %d token sends (also counting its private helpers): the publish-order rule is bound to the one-list-one-token-channel design", len(appends), len(sends)))
+		case !g.nodeDominates(appends[0].Outer, sends[0].Outer) || appends[0].Outer == sends[0].Outer:
 			r.fail("D4-publish-order", construct, c.pos(fd.Pos()), "the token is published before (or without) the value being appended: a consumer woken by the token can find the list empty")
 		default:
-			// the appended value is the parameter, at the tail
+			// the appended value is the parameter, at the tail (followed through the helper's parameter)
 			params := paramObjs(info, fd)
-			call := appendCall.(*ast.CallExpr)
+			ap := appends[0]
+			call := ap.Inner.(*ast.CallExpr)
 			_, mname, _, _ := methodCall(call)
-			okArg := len(params) == 1 && len(call.Args) == 1 && isObj(info, call.Args[0], params[0]) && mname == "AppendValue"
+			okArg := mname == "AppendValue" && len(call.Args) == 1 && len(params) == 1
+			if okArg {
+				arg := call.Args[0]
+				where := ap.Where
+				for i := len(ap.Path) - 1; i >= 0 && okArg; i-- {
+					// arg is a parameter of `where`; map it to the argument of the call that entered it
+					hp := paramObjs(info, where)
+					idx := -1
+					for k, p := range hp {
+						if isObj(info, arg, p) {
+							idx = k
+						}
+					}
+					if idx < 0 || idx >= len(ap.Path[i].Args) {
+						okArg = false
+						break
+					}
+					arg = ap.Path[i].Args[idx]
+					where = nil
+					for _, cand := range c.methodsOf(qr.q) {
+						if containsNode(cand, ap.Path[i]) {
+							where = cand
+						}
+					}
+					if where == nil {
+						okArg = false
+					}
+				}
+				if okArg && !isObj(info, arg, params[0]) {
+					okArg = false
+				}
+			}
 			r.check(okArg, "D4-publish-order", construct, c.pos(fd.Pos()), "AppendValue(value) under the lock dominates the token send",
 				"AddValue does not append its own parameter at the tail of the value list")
 		}
 	}
 	if fd := ms["RemoveHead"]; fd != nil {
 		g := newFG(info, fd.Body)
-		var recv, remove ast.Node
-		var okObj types.Object
-		inspectNoLit(fd.Body, func(x ast.Node) bool {
-			if lhs, rhs, ok := multiDef(x); ok && len(lhs) == 2 {
-				if u, ok := ast.Unparen(rhs).(*ast.UnaryExpr); ok && u.Op == token.ARROW && selectorField(info, u.X) == qr.chanF {
-					recv = x
-					okObj = identObj(info, lhs[1])
-				}
-			}
-			if rx, mname, call, ok := methodCall(x); ok && selectorField(info, rx) == qr.listF && mname == "RemoveValue" {
-				remove = call
-			}
-			return true
-		})
+		evs := qr.events(c, info, fd)
+		recvs, removes := eventsOf(evs, "recv2"), eventsOf(evs, "remove")
 		construct := c.fdName(fd)
 		switch {
-		case recv == nil || remove == nil || okObj == nil:
-			r.fail("D4-publish-order", construct, c.pos(fd.Pos()), "RemoveHead does not (two-value) receive a token from the channel and then remove from the value list")
-		case !g.nodeDominates(recv, remove):
-			r.fail("D4-publish-order", construct, c.pos(fd.Pos()), "the head is removed before a token has been received: a consumer can pop a value that was never published or index an empty list")
-		default:
-			// removal only on the ok edge
-			pt, _ := g.locate(remove)
-			guarded := false
-			for _, ec := range g.edgeConds(pt) {
-				if id, ok := ast.Unparen(ec.cond).(*ast.Ident); ok && info.Uses[id] == okObj && ec.polarity {
-					guarded = true
+		case len(recvs) == 1 && recvs[0].Ok != nil && len(removes) > 1:
+			// several list mutations: each must at least lie on the ok edge of the receive
+			bad := ""
+			for _, rm := range removes {
+				pt, _ := g.locate(rm.Outer)
+				if !g.nodeDominates(recvs[0].Outer, rm.Outer) || okEdge(g, info, pt, recvs[0].Ok) != 1 {
+					bad = fmt.Sprintf("the value list is changed at %s although no token was received there (closed or not yet received): a value owned by another consumer's token can disappear", c.pos(rm.Inner.Pos()))
 				}
 			}
-			call := remove.(*ast.CallExpr)
-			tv := info.Types[call.Args[0]]
-			head := len(call.Args) == 1 && tv.Value != nil && tv.Value.String() == "1"
-			// the function returns the receive's ok
-			retOK := true
+			if bad != "" {
+				r.fail("D4-publish-order", construct, c.pos(fd.Pos()), bad)
+			} else {
+				r.skip("D4-publish-order", construct, c.pos(fd.Pos()), "several list mutations on the ok edge: the one-removal rule does not apply")
+			}
+		case len(recvs) != 1 || len(removes) != 1 || recvs[0].Ok == nil:
+			if len(eventsOf(evs, "recv")) > len(recvs) && len(recvs) == 0 {
+				r.fail("D4-publish-order", construct, c.pos(fd.Pos()), "RemoveHead receives the token with a one-value receive: it cannot tell a closed queue from a published value")
+			} else {
+				r.skip("D4-publish-order", construct, c.pos(fd.Pos()), fmt.Sprintf("RemoveHead has %d two-value token receives in its own body and %d list removals: the rule is bound to the one-receive-one-removal design", len(recvs), len(removes)))
+			}
+		case !g.nodeDominates(recvs[0].Outer, removes[0].Outer):
+			r.fail("D4-publish-order", construct, c.pos(fd.Pos()), "the head is removed before a token has been received: a consumer can pop a value that was never published or index an empty list")
+		default:
+			okObj := recvs[0].Ok
+			pt, _ := g.locate(removes[0].Outer)
+			guarded := okEdge(g, info, pt, okObj) == 1
+			call := removes[0].Inner.(*ast.CallExpr)
+			head := false
+			_, rmName, _, _ := methodCall(call)
+			if rmName == "RemoveValue" && len(call.Args) == 1 {
+				tv := info.Types[call.Args[0]]
+				head = tv.Value != nil && tv.Value.String() == "1"
+			}
+			// the delivered value is the removal's own result, not a separate read of the list
+			separate := ""
+			if len(removes[0].Path) == 0 || true {
+				var resObj types.Object
+				inspectNoLit(fd.Body, func(x ast.Node) bool {
+					if rs, ok := x.(*ast.ReturnStmt); ok && len(rs.Results) == 2 {
+						if o := identObj(info, rs.Results[0]); o != nil && okEdgeReturn(g, info, rs, okObj) >= 0 {
+							resObj = o
+						}
+					}
+					return true
+				})
+				if resObj != nil {
+					ast.Inspect(fd.Body, func(x ast.Node) bool {
+						var rhs ast.Expr
+						if lhs, r0, ok := multiDef(x); ok && len(lhs) == 1 && identObj(info, lhs[0]) == resObj {
+							rhs = r0
+						}
+						if rhs == nil || containsNode(rhs, removes[0].Outer) || containsNode(removes[0].Outer, rhs) {
+							return true
+						}
+						if rcall, ok := ast.Unparen(rhs).(*ast.CallExpr); ok {
+							reads := false
+							if rx, _, _, ok := methodCall(rcall); ok && qField(info, fd, rx) == qr.listF {
+								reads = true
+							}
+							if rx, mname, _, ok := methodCall(rcall); ok && isObj(info, rx, recvObj(info, fd)) && ms[mname] != nil {
+								if len(eventsOf(qr.events(c, info, ms[mname]), "listuse")) > 0 {
+									reads = true
+								}
+							}
+							if reads {
+								separate = fmt.Sprintf("the value delivered is read from the list at %s, separately from its removal at %s: two consumers holding a token each can read the same head before either removes it", c.pos(rhs.Pos()), c.pos(removes[0].Outer.Pos()))
+							}
+						}
+						return true
+					})
+				}
+			}
+			if separate != "" {
+				r.fail("D4-publish-order", construct, c.pos(fd.Pos()), separate)
+				break
+			}
+			// every return hands back the receive's ok: the variable itself, or the constant the dominating branch implies
+			retOK, retKnown := true, true
 			inspectNoLit(fd.Body, func(x ast.Node) bool {
-				if rs, ok := x.(*ast.ReturnStmt); ok {
-					if len(rs.Results) != 2 || !isObj(info, rs.Results[1], okObj) {
+				rs, ok := x.(*ast.ReturnStmt)
+				if !ok {
+					return true
+				}
+				if len(rs.Results) != 2 {
+					retKnown = false
+					return true
+				}
+				if isObj(info, rs.Results[1], okObj) {
+					return true
+				}
+				tv := info.Types[rs.Results[1]]
+				rpt, located := g.locate(rs)
+				if tv.Value == nil || !located {
+					retKnown = false
+					return true
+				}
+				switch okEdge(g, info, rpt, okObj) {
+				case 1:
+					if tv.Value.String() != "true" {
 						retOK = false
 					}
+				case -1:
+					if tv.Value.String() != "false" {
+						retOK = false
+					}
+				default:
+					retKnown = false
 				}
 				return true
 			})
-			r.check(guarded && head && retOK, "D4-publish-order", construct, c.pos(fd.Pos()), "token receive dominates RemoveValue(1), which runs only when ok, and ok is returned",
-				fmt.Sprintf("RemoveHead must pop index 1 only on the ok edge of the token receive and return that ok (guarded=%v head=%v returns-ok=%v)", guarded, head, retOK))
+			switch {
+			case !guarded || !head || !retOK:
+				r.fail("D4-publish-order", construct, c.pos(fd.Pos()), fmt.Sprintf("RemoveHead must pop index 1 only on the ok edge of the token receive and return that ok (guarded=%v head=%v returns-ok=%v)", guarded, head, retOK))
+			case !retKnown:
+				r.skip("D4-publish-order", construct, c.pos(fd.Pos()), "the second result is not recognisably the receive's ok")
+			default:
+				r.ok("D4-publish-order", construct, c.pos(fd.Pos()), "token receive dominates RemoveValue(1), which runs only when ok, and ok is returned")
+			}
 		}
 	}
 	r.floor("D4-publish-order", 2)
@@ -300,6 +357,23 @@ func runC04(c *Ctx, r *Rec) {
 				}
 			}
 		}
+		// fields set by assignment on the object under construction
+		ast.Inspect(fd.Body, func(x ast.Node) bool {
+			if as, ok := x.(*ast.AssignStmt); ok && len(as.Lhs) == len(as.Rhs) {
+				for i, l := range as.Lhs {
+					if !underConstruction(info, fd, l) {
+						continue
+					}
+					switch selectorField(info, l) {
+					case qr.capF:
+						capExpr = as.Rhs[i]
+					case qr.chanF:
+						chanExpr = as.Rhs[i]
+					}
+				}
+			}
+			return true
+		})
 		if id, ok := ast.Unparen(chanExpr).(*ast.Ident); ok && chanExpr != nil {
 			if init := initOf(info, fd, id); init != nil {
 				chanExpr = init
@@ -309,46 +383,60 @@ func runC04(c *Ctx, r *Rec) {
 		if call, ok := ast.Unparen(chanExpr).(*ast.CallExpr); ok && chanExpr != nil && isBuiltinCall(info, call, "make") && len(call.Args) == 2 {
 			sizeArg = call.Args[1]
 		}
-		same := false
-		if capExpr != nil && sizeArg != nil {
-			a, aok := ast.Unparen(capExpr).(*ast.Ident)
-			b, bok := ast.Unparen(sizeArg).(*ast.Ident)
-			if aok && bok && info.Uses[a] != nil && info.Uses[a] == info.Uses[b] {
-				// no assignment to the variable between the make and the literal
+		if capExpr == nil || sizeArg == nil {
+			r.skip("D5-capacity-agreement", construct, c.pos(fd.Pos()), "the constructor does not set both the capacity field and a make(chan, n) channel in a recognised form")
+			continue
+		}
+		same, known := false, false
+		a, aok := ast.Unparen(capExpr).(*ast.Ident)
+		b, bok := ast.Unparen(sizeArg).(*ast.Ident)
+		if aok && bok && info.Uses[a] != nil && info.Uses[b] != nil {
+			known = true
+			if info.Uses[a] == info.Uses[b] {
+				// no assignment to the variable between the two uses
 				g := newFG(info, fd.Body)
-				pt, ok1 := g.after(sizeArg)
-				if ok1 {
+				first, second := ast.Node(sizeArg), ast.Node(capExpr)
+				if second.Pos() < first.Pos() {
+					first, second = second, first
+				}
+				if pt, ok1 := g.after(first); ok1 {
 					mod, _ := g.exists(pathQuery{from: pt,
-						stop:     func(n ast.Node) bool { return containsNode(n, lit) },
-						goalNode: func(n ast.Node) bool { return !containsNode(n, lit) && assignedIn(info, n, objKey(info.Uses[a]), &symEnv{info: info}) }})
+						stop:     func(n ast.Node) bool { return containsNode(n, second) },
+						goalNode: func(n ast.Node) bool { return !containsNode(n, second) && assignedIn(info, n, objKey(info.Uses[a]), &symEnv{info: info}) }})
 					same = !mod
 				}
 			}
+		} else if types.ExprString(ast.Unparen(capExpr)) != types.ExprString(ast.Unparen(sizeArg)) {
+			// two different expressions: constants or arithmetic on one side only
+			ta, tb := info.Types[capExpr], info.Types[sizeArg]
+			if ta.Value != nil || tb.Value != nil || aok || bok {
+				known = true
+			}
 		}
-		r.check(same, "D5-capacity-agreement", construct, c.pos(fd.Pos()), "the channel buffer and the capacity field are the same variable, unchanged in between",
-			"the token channel's buffer size and the stored capacity are not the same value: GetCapacity and the real back-pressure bound disagree")
+		switch {
+		case same:
+			r.ok("D5-capacity-agreement", construct, c.pos(fd.Pos()), "the channel buffer and the capacity field are the same variable, unchanged in between")
+		case known:
+			r.fail("D5-capacity-agreement", construct, c.pos(fd.Pos()), "the token channel's buffer size and the stored capacity are not the same value: GetCapacity and the real back-pressure bound disagree")
+		default:
+			r.skip("D5-capacity-agreement", construct, c.pos(fd.Pos()), "capacity and buffer size are not plain variables: not compared")
+		}
 	}
 	for _, vname := range []string{"GetSize", "IsEmpty"} {
 		fd := ms[vname]
 		if fd == nil {
 			continue
 		}
-		usesLen := false
-		inspectNoLit(fd.Body, func(x ast.Node) bool {
-			if call, ok := x.(*ast.CallExpr); ok && isBuiltinCall(info, call, "len") && len(call.Args) == 1 && selectorField(info, call.Args[0]) == qr.chanF {
-				usesLen = true
-			}
-			return true
-		})
-		usesList := false
-		inspectNoLit(fd.Body, func(x ast.Node) bool {
-			if se, ok := x.(*ast.SelectorExpr); ok && selectorField(info, se) == qr.listF {
-				usesList = true
-			}
-			return true
-		})
-		r.check(usesLen && !usesList, "D5-capacity-agreement", c.fdName(fd), c.pos(fd.Pos()), "reads len(channel), which the language bounds by the capacity",
-			"the size is not read from the token channel: while a producer is blocked the value list is longer than the capacity, so GetSize can exceed GetCapacity")
+		evs := qr.events(c, info, fd)
+		usesLen, usesList := len(eventsOf(evs, "len")) > 0, len(eventsOf(evs, "listuse")) > 0
+		switch {
+		case usesList:
+			r.fail("D5-capacity-agreement", c.fdName(fd), c.pos(fd.Pos()), "the size is read from the value list, not from the token channel: while a producer is blocked the value list is longer than the capacity, so GetSize can exceed GetCapacity")
+		case !usesLen:
+			r.skip("D5-capacity-agreement", c.fdName(fd), c.pos(fd.Pos()), "neither len(channel) nor the value list is read here or in a private helper")
+		default:
+			r.ok("D5-capacity-agreement", c.fdName(fd), c.pos(fd.Pos()), "reads len(channel), which the language bounds by the capacity")
+		}
 	}
 	r.floor("D5-capacity-agreement", 3)
 }
@@ -382,6 +470,7 @@ func runC05(c *Ctx, r *Rec) {
 		checkLockPairing(c, r, "D4-lock-released", info, ms[name], ms[name].Body, objKey(qr.mutexF), qr.mutexF.Name())
 	}
 	r.floor("D4-lock-released", 7)
+	checkNoBlockingUnderLock(c, r, "D4-no-wait-under-lock", qr)
 
 	// ---- D2 no self-fill
 	nsites := 0
@@ -399,24 +488,53 @@ func runC05(c *Ctx, r *Rec) {
 	if closeFD == nil || remFD == nil {
 		r.undecided("D3-close-wakes", "collection."+qr.q.Obj().Name(), "", "CloseQueue/RemoveHead not found")
 	} else {
-		closes := false
-		inspectNoLit(closeFD.Body, func(x ast.Node) bool {
-			if call, ok := x.(*ast.CallExpr); ok && isBuiltinCall(info, call, "close") && len(call.Args) == 1 && selectorField(info, call.Args[0]) == qr.chanF {
-				closes = true
-			}
-			return true
-		})
+		cevs := qr.events(c, info, closeFD)
+		closes := len(eventsOf(cevs, "close")) > 0
 		r.check(closes, "D3-close-wakes", c.fdName(closeFD), c.pos(closeFD.Pos()), "closes the queue's own token channel", "CloseQueue does not close the channel field that RemoveHead receives from: parked consumers are never released")
-		two := false
-		inspectNoLit(remFD.Body, func(x ast.Node) bool {
-			if lhs, rhs, ok := multiDef(x); ok && len(lhs) == 2 {
-				if u, ok := ast.Unparen(rhs).(*ast.UnaryExpr); ok && u.Op == token.ARROW && selectorField(info, u.X) == qr.chanF {
-					two = true
+		// a close guarded by a state field: whoever installs a new (open) channel must reset that field
+		if closes {
+			cg := newFG(info, closeFD.Body)
+			for _, ce := range eventsOf(qr.directEvents(info, closeFD), "close") {
+				pt, ok := cg.locate(ce.Outer)
+				if !ok {
+					continue
+				}
+				for _, ec := range cg.edgeConds(pt) {
+					var guard *types.Var
+					ast.Inspect(ec.cond, func(x ast.Node) bool {
+						if se, ok := x.(*ast.SelectorExpr); ok && isObj(info, se.X, recvObj(info, closeFD)) {
+							if f := selectorField(info, se); f != nil {
+								guard = f
+							}
+						}
+						return true
+					})
+					if guard == nil {
+						continue
+					}
+					for _, w := range fw[qr.chanF.Origin()] {
+						resets := false
+						for _, gw := range fw[guard.Origin()] {
+							if gw.In == w.In {
+								resets = true
+							}
+						}
+						r.check(resets, "D3-close-wakes", c.fdName(closeFD)+"/guard:"+guard.Name()+"/"+w.In.Name.Name, c.pos(w.Pos),
+							"the method that installs a new channel also resets the field that guards the close",
+							fmt.Sprintf("CloseQueue closes the channel only under a condition on %s, and %s installs a new open channel without resetting %s: a later CloseQueue is skipped and consumers parked on the new channel are never released", guard.Name(), w.In.Name.Name, guard.Name()))
+					}
 				}
 			}
-			return true
-		})
-		r.check(two, "D3-close-wakes", c.fdName(remFD), c.pos(remFD.Pos()), "two-value receive on the queue's own token channel", "RemoveHead does not use the two-value receive on the channel field: it cannot tell a closed queue from a value")
+		}
+		revs := qr.events(c, info, remFD)
+		switch {
+		case len(eventsOf(revs, "recv2")) > 0:
+			r.ok("D3-close-wakes", c.fdName(remFD), c.pos(remFD.Pos()), "two-value receive on the queue's own token channel")
+		case len(eventsOf(revs, "recv")) > 0:
+			r.fail("D3-close-wakes", c.fdName(remFD), c.pos(remFD.Pos()), "RemoveHead does not use the two-value receive on the channel field: it cannot tell a closed queue from a value")
+		default:
+			r.skip("D3-close-wakes", c.fdName(remFD), c.pos(remFD.Pos()), "RemoveHead does not receive from the channel field in its own body or a private helper")
+		}
 	}
 	r.floor("D3-close-wakes", 2)
 }
@@ -464,6 +582,7 @@ func checkSelfFill(c *Ctx, r *Rec, info *types.Info, fd *ast.FuncDecl, qr *queue
 	var tracker *sizeTracker
 	capKey := func(o types.Object) string { return "cap:" + objKey(o) }
 	tracker = newSizeTracker(info, fd, env, nil)
+	enableInlining(c, env, fd, nil)
 	prevAssign := env.onAssign
 	env.onAssign = func(st *symState, lhs ast.Expr, rhs ast.Expr) {
 		prevAssign(st, lhs, rhs)
@@ -523,8 +642,8 @@ func checkSelfFill(c *Ctx, r *Rec, info *types.Info, fd *ast.FuncDecl, qr *queue
 			}
 			full := append(append(Cube{}, env.base...), st.cube...)
 			switch {
-			case capV.Lin == nil:
-				findings = append(findings, finding{fl.obj, "the capacity given to the new queue is not an integer form"})
+			case capV.Lin == nil || hasOpaque(capV.Lin):
+				findings = append(findings, finding{fl.obj, "skip: the capacity given to the new queue is not an integer form of the inputs"})
 			default:
 				if sat, dec := satF(full, lt(capV.Lin, src)); sat || !dec {
 					findings = append(findings, finding{fl.obj, fmt.Sprintf("the queue is created with capacity %s and then filled in this same function, through the blocking AddValue, with %s values: for some inputs (on {%s}) that is more than the capacity and the call blocks on itself forever", capV.Lin, src, full)})
@@ -543,7 +662,7 @@ func checkSelfFill(c *Ctx, r *Rec, info *types.Info, fd *ast.FuncDecl, qr *queue
 		seen[fl.obj] = true
 		construct := c.fdName(fd) + "/" + fl.obj.Name()
 		if len(env.problems) > 0 {
-			r.undecided("D2-no-self-fill", construct, c.pos(fd.Pos()), strings.Join(dedup(env.problems), "; "))
+			r.skip("D2-no-self-fill", construct, c.pos(fd.Pos()), strings.Join(dedup(env.problems), "; "))
 			continue
 		}
 		if checked[fl.obj] == 0 {
@@ -556,7 +675,7 @@ func checkSelfFill(c *Ctx, r *Rec, info *types.Info, fd *ast.FuncDecl, qr *queue
 				bad = f.text
 			}
 		}
-		r.check(bad == "", "D2-no-self-fill", construct, c.pos(fd.Pos()), "the capacity given to the new queue is >= the number of values it is then filled with, on all integers", bad)
+		r.verdict("D2-no-self-fill", construct, c.pos(fd.Pos()), "the capacity given to the new queue is >= the number of values it is then filled with, on all integers", bad)
 	}
 	return sites
 }
@@ -572,4 +691,229 @@ func stmtsBeforeLoops(list []ast.Stmt) []ast.Stmt {
 		out = append(out, s)
 	}
 	return out
+}
+
+// ---------------------------------------------------------------- queue events (alias- and helper-aware)
+
+// qField: the queue field an expression denotes: X.f directly, or a local variable whose single
+// definition is X.f (var channel = v.available_).
+func qField(info *types.Info, fd *ast.FuncDecl, e ast.Expr) *types.Var {
+	e = ast.Unparen(e)
+	if f := selectorField(info, e); f != nil {
+		return f
+	}
+	if id, ok := e.(*ast.Ident); ok {
+		if init := initOf(info, fd, id); init != nil {
+			if f := selectorField(info, ast.Unparen(init)); f != nil {
+				return f
+			}
+		}
+	}
+	return nil
+}
+
+// qEvent: one occurrence of a queue event.  Outer is the node in the analysed method (the
+// event itself or the call of the private helper that contains it); Inner is the event node in
+// the function Where that contains it.
+type qEvent struct {
+	Kind  string
+	Outer ast.Node
+	Inner ast.Node
+	Where *ast.FuncDecl
+	Ok    types.Object // recv2: the ok variable (only when Inner is in the analysed method)
+	Path  []*ast.CallExpr
+}
+
+// directEvents lists the queue events written in fd itself.
+func (qr *queueRoles) directEvents(info *types.Info, fd *ast.FuncDecl) []qEvent {
+	var out []qEvent
+	inspectNoLit(fd.Body, func(x ast.Node) bool {
+		switch s := x.(type) {
+		case *ast.SendStmt:
+			if qField(info, fd, s.Chan) == qr.chanF {
+				out = append(out, qEvent{Kind: "send", Outer: s, Inner: s, Where: fd})
+			}
+		case *ast.CallExpr:
+			if rx, mname, _, ok := methodCall(s); ok && qField(info, fd, rx) == qr.listF {
+				switch mname {
+				case "AppendValue", "InsertValue":
+					out = append(out, qEvent{Kind: "append", Outer: s, Inner: s, Where: fd})
+				default:
+					if listMutators[mname] {
+						out = append(out, qEvent{Kind: "remove", Outer: s, Inner: s, Where: fd})
+					}
+				}
+			}
+			if isBuiltinCall(info, s, "close") && len(s.Args) == 1 && qField(info, fd, s.Args[0]) == qr.chanF {
+				out = append(out, qEvent{Kind: "close", Outer: s, Inner: s, Where: fd})
+			}
+			if isBuiltinCall(info, s, "len") && len(s.Args) == 1 && qField(info, fd, s.Args[0]) == qr.chanF {
+				out = append(out, qEvent{Kind: "len", Outer: s, Inner: s, Where: fd})
+			}
+		case *ast.UnaryExpr:
+			if s.Op == token.ARROW && qField(info, fd, s.X) == qr.chanF {
+				out = append(out, qEvent{Kind: "recv", Outer: s, Inner: s, Where: fd})
+			}
+		case *ast.SelectorExpr:
+			if selectorField(info, s) == qr.listF {
+				out = append(out, qEvent{Kind: "listuse", Outer: s, Inner: s, Where: fd})
+			}
+		}
+		if lhs, rhs, ok := multiDef(x); ok && len(lhs) == 2 {
+			if u, ok := ast.Unparen(rhs).(*ast.UnaryExpr); ok && u.Op == token.ARROW && qField(info, fd, u.X) == qr.chanF {
+				out = append(out, qEvent{Kind: "recv2", Outer: x, Inner: x, Where: fd, Ok: identObj(info, lhs[1])})
+			}
+		}
+		return true
+	})
+	return out
+}
+
+// events lists the queue events of fd including those inside the unexported methods of the
+// queue that fd calls on its receiver (up to three levels); for those Outer is the call in fd.
+func (qr *queueRoles) events(c *Ctx, info *types.Info, fd *ast.FuncDecl) []qEvent {
+	ms := c.methodsOf(qr.q)
+	var out []qEvent
+	var walk func(cur *ast.FuncDecl, outer ast.Node, path []*ast.CallExpr, depth int)
+	walk = func(cur *ast.FuncDecl, outer ast.Node, path []*ast.CallExpr, depth int) {
+		for _, e := range qr.directEvents(info, cur) {
+			if outer != nil {
+				e.Outer = outer
+				e.Ok = nil
+				e.Path = path
+			}
+			out = append(out, e)
+		}
+		if depth >= 3 {
+			return
+		}
+		recv := recvObj(info, cur)
+		inspectNoLit(cur.Body, func(x ast.Node) bool {
+			if rx, mname, call, ok := methodCall(x); ok && isObj(info, rx, recv) && !ast.IsExported(mname) && ms[mname] != nil && ms[mname] != cur {
+				o := outer
+				if o == nil {
+					o = call
+				}
+				walk(ms[mname], o, append(append([]*ast.CallExpr{}, path...), call), depth+1)
+			}
+			return true
+		})
+	}
+	walk(fd, nil, nil, 0)
+	return out
+}
+
+func eventsOf(evs []qEvent, kind string) []qEvent {
+	var out []qEvent
+	for _, e := range evs {
+		if e.Kind == kind {
+			out = append(out, e)
+		}
+	}
+	return out
+}
+
+// okEdge: the polarity of the ok variable implied at point pt by the branches that dominate
+// it: +1 ok is true, -1 ok is false, 0 unknown.
+func okEdge(g *FG, info *types.Info, pt point, okObj types.Object) int {
+	for _, ec := range g.edgeConds(pt) {
+		cond, pol := ast.Unparen(ec.cond), ec.polarity
+		for {
+			u, ok := cond.(*ast.UnaryExpr)
+			if !ok || u.Op != token.NOT {
+				break
+			}
+			cond, pol = ast.Unparen(u.X), !pol
+		}
+		if id, ok := cond.(*ast.Ident); ok && info.Uses[id] == okObj {
+			if pol {
+				return 1
+			}
+			return -1
+		}
+	}
+	return 0
+}
+
+// checkNoBlockingUnderLock: no channel operation, blocking queue call or Wait lies inside a
+// region in which the queue's mutex is definitely held.
+func checkNoBlockingUnderLock(c *Ctx, r *Rec, rule string, qr *queueRoles) {
+	info := c.info("collection")
+	ms := c.methodsOf(qr.q)
+	mkey := objKey(qr.mutexF)
+	for _, name := range sortedKeys(ms) {
+		fd := ms[name]
+		g := newFG(info, fd.Body)
+		li := computeLock(g, info, mkey)
+		bad := ""
+		locks := 0
+		for _, b := range g.order {
+			for _, n := range b.Nodes {
+				if mutexOp(info, &symEnv{info: info}, n, mkey) == "lock" {
+					locks++
+				}
+				if !li.held[n] {
+					continue
+				}
+				inspectNoLit(n, func(x ast.Node) bool {
+					switch s := x.(type) {
+					case *ast.SendStmt:
+						bad = "channel send at " + c.pos(s.Pos())
+					case *ast.UnaryExpr:
+						if s.Op == token.ARROW {
+							bad = "channel receive at " + c.pos(s.Pos())
+						}
+					case *ast.SelectStmt:
+						bad = "select at " + c.pos(s.Pos())
+					case *ast.CallExpr:
+						if rx, mname, _, ok := methodCall(s); ok {
+							t := info.Types[rx].Type
+							isQ := false
+							if n := derefNamed(t); n != nil && (n.Origin() == qr.q.Origin() || n.Obj().Name() == "QueueLike") {
+								isQ = true
+							}
+							if isQ && (mname == "AddValue" || mname == "RemoveHead") {
+								bad = "blocking queue call " + mname + " at " + c.pos(s.Pos())
+							}
+							if mname == "Wait" {
+								bad = "Wait at " + c.pos(s.Pos())
+							}
+							// a private helper of the queue that sends or receives
+							if isObj(info, rx, recvObj(info, fd)) && !ast.IsExported(mname) && ms[mname] != nil {
+								for _, e := range qr.events(c, info, ms[mname]) {
+									if e.Kind == "send" || e.Kind == "recv" {
+										bad = "the helper " + mname + " called at " + c.pos(s.Pos()) + " blocks on the channel"
+									}
+								}
+							}
+						}
+					}
+					return true
+				})
+			}
+		}
+		if locks > 0 {
+			r.check(bad == "", rule, c.fdName(fd), c.pos(fd.Pos()), "nothing inside the lock region can block on a channel",
+				"a blocking operation lies inside the mutex region ("+bad+"): a full or empty queue then blocks every other caller, including the one that could unblock it")
+		}
+	}
+}
+
+// okEdgeReturn: okEdge at a return statement (0 when the return is not located).
+func okEdgeReturn(g *FG, info *types.Info, rs *ast.ReturnStmt, okObj types.Object) int {
+	pt, ok := g.locate(rs)
+	if !ok {
+		return 0
+	}
+	return okEdge(g, info, pt, okObj)
+}
+
+// hasOpaque: the linear form mentions the result of a call the interpreter did not look into.
+func hasOpaque(l *Lin) bool {
+	for s := range l.C {
+		if strings.HasPrefix(s, "val:") && strings.Contains(s, "(") {
+			return true
+		}
+	}
+	return false
 }
